@@ -75,7 +75,7 @@ pub fn check_source(out: &mut Out, names: &mut Ser, src: &str, origin: &str) {
     let ev = run_eval(&elab, EVAL_CAP);
     let answer = match &ev {
         Err(_) => "panic".to_owned(),
-        Ok((Final::Cap, _, _)) => "fuel".to_owned(),
+        Ok((Final::Cap, _, n)) => if *n == usize::MAX { "timeout".to_owned() } else { "fuel".to_owned() },
         Ok((Final::Value, v, _)) => format!("value {}", es.term(v, HoleMode::ZonkErase)),
         Ok((Final::Stuck(r), v, _)) => format!("stuck {} {}", r, es.term(v, HoleMode::ZonkErase)),
     };
